@@ -405,6 +405,11 @@ fn main() {
             let w = format!("a{}", "\u{301}".repeat(*n - 1));
             let mut texts: Vec<String> = [&["a"][..], &["a", "ä", " "][..], &["e\u{301}", "a", "a", " ", "ä"][..]].iter().map(|pat| tu_verif::enumerate::repeat_symbols(pat, *n).trim().to_string()).collect();
             texts.extend([format!("x{w}y b"), format!("{w} {w}b")]);
+            // (one repeated multi-byte character at every byte alignment, cut into words of 7)
+            texts.extend(tu_verif::enumerate::byte_aligned_texts(*n).into_iter().map(|t| {
+                let cs: Vec<char> = t.chars().collect();
+                cs.chunks(7).map(|c| c.iter().collect::<String>()).collect::<Vec<_>>().join(" ")
+            }));
             for text in texts {
                 for g in [false, true] {
                     if !refs::is_clean(&text, g) {
